@@ -67,6 +67,12 @@ class StringField(Field):
         if not isinstance(value, str):
             raise ValueError("value must be a string, not a %s" % type(value).__name__)
 
+        # the case transformation comes first: stripping characters that only appear after the
+        # transformation ("xa" with strip="X", case="upper") would make a second validation change
+        # the value again
+        if self.transform_case:
+            value = value.lower() if self.transform_case == "lower" else value.upper()
+
         if self.transform_strip:
             if isinstance(self.transform_strip, str):
                 value = value.strip(self.transform_strip)
@@ -75,9 +81,6 @@ class StringField(Field):
 
         if self.required and not value:
             raise ValueError("value is required")
-
-        if self.transform_case:
-            value = value.lower() if self.transform_case == "lower" else value.upper()
 
         if self.min_len is not None and len(value) < self.min_len:
             raise ValueError("value must be at least %d characters" % self.min_len)
